@@ -29,8 +29,7 @@ def locate_surfaces(d_boundCond, dic_surf_mcnp, dic_surface_t4, dic_volume):
     written in the TRIPOLI-4 geometry. The MCNP surface may have been merged
     into an identical surface by the de-duplication, or it may not bound any
     written cell (in which case the boundary condition is dropped).'''
-    used = extract_used_surfaces(volume for volume in dic_volume.values()
-                                 if not volume.fictive)
+    used = extract_used_surfaces(dic_volume.values())
     located = OrderedDict()
     for key, bound_cond in d_boundCond.items():
         if key in used:
